@@ -38,7 +38,7 @@ def gen(rng, i, tier):
     fam = rng.choice(["c02", "c02", "c03", "c06", "c01"])
     c = rng.choice(CVALS)
     if fam == "c02":
-        case = c02.gen(rng, i, tier)
+        case = c02.gen(rng, -1, tier)      # -1: without the slack ranges of 2**49 (the substituted weight is a float)
     elif fam == "c03":
         case = c03.gen(rng, i, tier)
     elif fam == "c06":
